@@ -81,9 +81,10 @@ def lastBy : List (Int × Rat) → Option Rat
   | [] => none
   | p :: ps => some (ps.foldl (fun best q => if best.1 < q.1 then q else best) p).2
 
-/-- the range functions over unwrapped values: `grp` = (timestamp, value) of the entries of one (series, bucket);
-    `none` = outside the modelled functions (stddev/stdvar) -/
-def unwrapVal (fn : UnwrapFn) (durNs : Nat) (grp : List (Int × Rat)) : Option Rat :=
+/-- the range functions over unwrapped values: `grp` = (timestamp, value) of the entries of one (series, bucket); `none` for
+    an empty group. stdvar_over_time = population variance, stddev_over_time = the oracle `sqrt` of it (the square root is
+    not a rational function: the SQL side applies the same uninterpreted function) -/
+def unwrapVal (o : Oracles) (fn : UnwrapFn) (durNs : Nat) (grp : List (Int × Rat)) : Option Rat :=
   let vs := grp.map (·.2)
   match fn, vs with
   | _, [] => none
@@ -94,8 +95,8 @@ def unwrapVal (fn : UnwrapFn) (durNs : Nat) (grp : List (Int × Rat)) : Option R
   | .minOT, v :: rest => some (rest.foldl min v)
   | .firstOT, _ => firstBy grp
   | .lastOT, _ => lastBy grp
-  | .stdvarOT, _ => none
-  | .stddevOT, _ => none
+  | .stdvarOT, _ => some (varPopRat vs)
+  | .stddevOT, _ => some (o.sqrt (varPopRat vs))
 
 /-- the unwrapped value of an entry -/
 def unwrapOf (o : Oracles) (label : String) (labels : Val) (s : Sample) : Rat :=
@@ -123,7 +124,7 @@ def rangePoints (o : Oracles) (c : Ctx) (d : LokiDb) (r : RangeAgg) (lo hi : Int
     let keyOf := fun (it : Val × Val × Int × Rat) => (it.1, bucketOf r.durNs it.2.2.1)
     (items.map keyOf).eraseDups.filterMap (fun k =>
       let grp := items.filter (fun it => keyOf it == k)
-      (unwrapVal fn r.durNs (grp.map (fun it => (it.2.2.1, it.2.2.2)))).map (fun v =>
+      (unwrapVal o fn r.durNs (grp.map (fun it => (it.2.2.1, it.2.2.2)))).map (fun v =>
         ⟨k.1, (grp.head?.map (·.2.1)).getD .null, k.2, v⟩))
 
 def numOf (n : NumLit) : Rat :=
@@ -140,7 +141,7 @@ def cmpStage (cm : Option Comparison) (pts : List Pt) : List Pt :=
   | none => pts
   | some c => pts.filter (fun p => cmpHoldsR c.op p.value (numOf c.val))
 
-def aggVal (fn : AggFn) (vs : List Rat) : Option Rat :=
+def aggVal (o : Oracles) (fn : AggFn) (vs : List Rat) : Option Rat :=
   match fn, vs with
   | _, [] => none
   | .sum, _ => some (ratSumL vs)
@@ -148,8 +149,8 @@ def aggVal (fn : AggFn) (vs : List Rat) : Option Rat :=
   | .min, v :: rest => some (rest.foldl min v)
   | .max, v :: rest => some (rest.foldl max v)
   | .count, _ => some (vs.length : Int)
-  | .stddev, _ => none
-  | .stdvar, _ => none
+  | .stddev, _ => some (o.sqrt (varPopRat vs))
+  | .stdvar, _ => some (varPopRat vs)
 
 /-- labels of a point: its own once attached, else those of its stream -/
 def ptLabels (o : Oracles) (c : Ctx) (d : LokiDb) (q : LogQuery) (p : Pt) : Val :=
@@ -164,7 +165,7 @@ def aggStage (o : Oracles) (c : Ctx) (d : LokiDb) (q : LogQuery) (a : VecAgg) (p
   let keyOf := fun (it : Val × Val × Int × Rat) => (it.1, it.2.2.1)
   (items.map keyOf).eraseDups.filterMap (fun k =>
     let grp := items.filter (fun it => keyOf it == k)
-    (aggVal a.fn (grp.map (·.2.2.2))).map (fun v => ⟨k.1, (grp.head?.map (·.2.1)).getD .null, k.2, v⟩))
+    (aggVal o a.fn (grp.map (·.2.2.2))).map (fun v => ⟨k.1, (grp.head?.map (·.2.1)).getD .null, k.2, v⟩))
 
 def keyIntOf : Val → Int
   | .int i => i
